@@ -147,6 +147,14 @@ def cases(tier: str, seed: int) -> list[dict]:
             cli.append({"cmd": "export-geometry", "format": "auto", "ext": ext, "flags": ["format-auto", "bad-extension", "ext-fragment"], "request": "bad"})
         for k, c in enumerate(cli):
             out.append({"src": "gen", "kind": "cli", "world": w, "events": [dict(c, a="Cli", conv=conv)]})
+    # fewer cells WITH a polygon than a power of ten, while the highest linear index has one digit more (12 cells, the first
+    # three without coordinates): every attribute column must be wide enough for its largest value
+    w = GW.structured_world("cf2d", 3, 4, shape="rect", bounds=True, holes=[(0, 0), (0, 1), (0, 2)])
+    CD.add_data_vars(w, rng, rich=False)
+    for fmt, ext in (("shapefile", "shp"), ("auto", "shp")):
+        out.append({"src": "gen", "kind": "cli", "world": w, "events": [
+            {"cmd": "export-geometry", "format": fmt, "ext": ext, "flags": ["format-" + ("auto" if fmt == "auto" else fmt)], "request": "good",
+             "a": "Cli", "conv": "cf2d"}]})
     return out
 
 
